@@ -6,6 +6,8 @@ import CCVerif.Lemmas.AnalysisFuelStab
 import CCVerif.Lemmas.ParserRangesLex
 import CCVerif.Lemmas.ParserShapeTop
 import CCVerif.Lemmas.EntryPoints
+import CCVerif.Lemmas.PrinterTotal
+import CCVerif.Lemmas.VCheckTotal
 import CCVerif.Properties.C03
 import CCVerif.Properties.C16
 import CCVerif.Properties.C17
@@ -992,5 +994,218 @@ example : convertEntry .ascii (units "X1 )") = .text (units "X1 )") ∧
   decide +kernel
 
 end EntryPoints
+
+end CCVerif.C04
+
+/-! ## 6. `ConvertTo` never reaches an unchecked access (`Lemmas/PrinterShape.lean`, `Lemmas/PrinterTotal.lean`) -/
+namespace CCVerif.C04
+open CCVerif.Syntax CCVerif.Parser CCVerif.Entry CCVerif.Convert
+
+/-- **convert_entry_total** = `convert_entry_total_statement`, proved: for EVERY byte string and both targets `ConvertTo` is
+outside the model exactly when the text is not in the lexer model of the opposite syntax (MATH source, ill-formed UTF-8);
+a text the opposite parser rejects comes back unchanged; a text it accepts comes back as the printed tree, and the printer
+(`GeneratorImplAST`) reaches NO unchecked access on it (`std::get` of the wrong payload, `*begin()` of an empty index
+vector, `children.at(i)`, a failing `assert(ChildrenCount() …)`). No hypothesis: `ConvertTo` has no context, and the shape
+the printer needs (`PrinterShape.Printable`: arity and payload per node kind) is established by the parser for every
+token stream (`PrinterShape.parse_printable`); the checker's shape `WfParsed` of C06 would NOT be enough
+(`Printer.print_stuck_on_WfParsed_counterexample`). -/
+theorem convert_entry_total : convert_entry_total_statement := by
+  intro target input
+  obtain ⟨h1, h2, h3⟩ := convert_entry_total_partial target input
+  refine ⟨h1, h2, fun units t hu hp => ?_⟩
+  rcases h3 units t hu hp with h | ⟨hn, _⟩
+  · exact h
+  · obtain ⟨out, ho⟩ := CCVerif.Printer.print_total_on_parsed (other target) target units t hp
+    rw [ho] at hn; cases hn
+
+/-- **convert_entry_never_stuck**: the outcome `stuck` of the conversion model is unreachable — every byte string (also
+outside the lexer model), both targets. -/
+theorem convert_entry_never_stuck (target : Syn) (input : List Nat) : convertEntry target input ≠ .stuck := by
+  intro hs
+  obtain ⟨h1, h2, h3⟩ := convert_entry_total target input
+  cases hu : unitsOf (other target) input with
+  | none => rw [h1.2 hu] at hs; cases hs
+  | some units =>
+    cases hp : parse (other target) units with
+    | none => rw [h2 units hu hp] at hs; cases hs
+    | some t =>
+      obtain ⟨out, _, ho⟩ := h3 units t hu hp
+      rw [ho] at hs; cases hs
+
+/-- **printed_tree_total**: the generator on EVERY tree the parser returns, in either target syntax (also the syntax the
+text was written in: `ConvertTo`'s normalising use) -/
+theorem printed_tree_total (src target : Syn) (text : List Nat) (t : Ast) (h : parse src text = some t) :
+    ∃ out, CCVerif.Printer.print target t = some out :=
+  CCVerif.Printer.print_total_on_parsed src target text t h
+
+/-- non-vacuity: the third clause of `convert_entry_total` on an accepted text that exercises the index tuple, the
+variable-arity visitors and the declaration visitor: `S1 \deftype B(X1*X1*X1)`, `Fi1,2[X1, X2](X1*X2)` (ASCII → MATH) -/
+example : (parse .ascii (units "S1 \\deftype B(X1*X1*X1)")).isSome = true ∧
+    (parse .ascii (units "Fi1,2[X1, X2](X1*X2)")).isSome = true ∧
+    convertEntry .math (units "Fi1,2[X1, X2](X1*X2)") = .text (units "Fi1,2[X1, X2](X1" ++ [0xC3, 0x97] ++ units "X2)") := by
+  decide +kernel
+
+end CCVerif.C04
+
+/-! ## 7. `CheckValue` reaches no unchecked access: the `gap` status of the value audit disappears (`Lemmas/VCheckTotal.lean`) -/
+namespace CCVerif.C04
+open CCVerif.Syntax CCVerif.Lexer CCVerif.Parser CCVerif.Types CCVerif.Checker CCVerif.Entry CCVerif.Convert
+
+/-- **vcheck_not_stuck** (`ValueAuditor::Check` on a tree of the parser's shape): with stored function definitions of the
+shape `name :== [decls] body` (`AstsShape`: the children `ViFunctionCall` reads without a check exist, every declaration
+starts with a named local, the body is grammar-shaped), with the C++ `assert(size(args) == size(argsVals))` satisfied at
+every call of a stored function in the input tree and in the stored bodies (`ArityOK`, `AstsArity`), and with non-recursive
+stored definitions (`AstsAcyclic`: a rank decreases along calls — otherwise the inlining of the C++ does not terminate and
+the model runs out of fuel: `Lemmas/VCheckTotal.lean`, last example), the value audit with the fuel of the entry point
+reaches no faulting site. Each hypothesis is needed (closed examples there). -/
+theorem vcheck_not_stuck (Γ : Ctx) (rank : String → Nat) (xs : List String) (t : Ast)
+    (hS : AstsShape Γ) (hA : AstsArity Γ) (hAc : AstsAcyclic Γ rank) (hw : WfParsed Γ xs t) (ht : ArityOK Γ t) :
+    (vcheck Γ (vfuel Γ t) t).stuck = none :=
+  CCVerif.Checker.vcheck_not_stuck hS hA hAc hw ht
+
+/-- **vcheck_stuck_only_fuel**: without the acyclicity hypothesis and for EVERY fuel, the only site the model can be stuck
+at is its own `"fuel"` — no `child-index`, `bad_variant_access`, `Root.Child(1)`, `Child(1).Child`, `assert:args`,
+`args.Child`. -/
+theorem vcheck_stuck_only_fuel (Γ : Ctx) (xs : List String) (t : Ast)
+    (hS : AstsShape Γ) (hA : AstsArity Γ) (hw : WfParsed Γ xs t) (ht : ArityOK Γ t) :
+    ∀ fuel x, (vcheck Γ fuel t).stuck = some x → x = "fuel" :=
+  CCVerif.Checker.vcheck_stuck_only_fuel hS hA hw ht
+
+/-- **check_entry_faithful_nogap** (`Auditor::CheckType(text, hint)` then `CheckValue()`): under the hypothesis of
+`check_entry_faithful` (`FuncsNotLogic`) and the hypotheses of `vcheck_not_stuck` on the context and on the parsed tree, the
+value audit always has a verdict the model determines: `CheckValue` ran exactly when `CheckType` succeeded and then it
+either returned true with the log unchanged or returned false with a critical error in the log; a `gap` can only be the
+parser model's. -/
+theorem check_entry_faithful_nogap (Γ : Ctx) (rank : String → Nat) (hint : Option Syn) (bytes : List Nat) (r : CheckResE)
+    (h : checkEntry Γ hint bytes = some r)
+    (hΓ : ∀ ts, lex r.parse.syn r.parse.units = some ts → CCVerif.ParserShape.FuncsNotLogic Γ ts)
+    (hS : AstsShape Γ) (hA : AstsArity Γ) (hAc : AstsAcyclic Γ rank)
+    (hT : ∀ t, r.parse.tree = some t → ArityOK Γ t) :
+    (∀ why, r.vstatus ≠ some (.gap why)) ∧
+    (r.status = .ok → (r.vstatus = some .ok ∧ r.verrors = r.errors ∧ r.vclass.isSome = true) ∨
+      (r.vstatus = some .failed ∧ ∃ e ∈ r.verrors, isCritical e.1 = true)) ∧
+    (r.status ≠ .ok → r.vstatus = none) ∧
+    (∀ why, r.status = .gap why → r.parse.status = .gap why) := by
+  obtain ⟨_, _, _, hgap, _, hiff, hvok, hvfail, _⟩ := check_entry_faithful Γ hint bytes r h hΓ
+  have hng : ∀ why, r.vstatus ≠ some (.gap why) := by
+    unfold checkEntry at h
+    split at h
+    · cases h
+    · rename_i p hp
+      obtain ⟨_, _, hok, _, _⟩ := parse_entry_faithful hint bytes p hp
+      split at h
+      · rename_i t hst htree
+        obtain ⟨_, htr, _⟩ := hok hst
+        have hparse : parse p.syn p.units = some t := by rw [← htr, htree]
+        simp only [] at h
+        split at h
+        · simp only [Option.some.injEq] at h
+          subst h
+          obtain ⟨xs, hw⟩ := CCVerif.ParserShape.parse_wfParsed p.syn p.units t hparse hΓ
+          have hns := CCVerif.Checker.vcheck_not_stuck hS hA hAc hw (hT t htree)
+          intro why
+          simp only [hns]
+          cases (vcheck Γ (vfuel Γ t) t).out <;> simp
+        · simp only [Option.some.injEq] at h; subst h; intro why; simp
+        · simp only [Option.some.injEq] at h; subst h; intro why; simp
+      · simp only [Option.some.injEq] at h; subst h; intro why; simp
+      · simp only [Option.some.injEq] at h; subst h; intro why; simp
+  refine ⟨hng, ?_, ?_, hgap⟩
+  · intro hs
+    have hsome := hiff.2 hs
+    cases hv : r.vstatus with
+    | none => rw [hv] at hsome; cases hsome
+    | some st =>
+      cases st with
+      | ok =>
+        refine Or.inl ⟨rfl, hvok hv, ?_⟩
+        -- the class is reported with the verdict
+        unfold checkEntry at h
+        split at h
+        · cases h
+        · split at h
+          · simp only [] at h
+            split at h
+            · simp only [Option.some.injEq] at h
+              subst h
+              revert hv
+              simp only []
+              cases (vcheck Γ (vfuel Γ _) _).stuck <;> cases (vcheck Γ (vfuel Γ _) _).out <;> simp
+            · simp only [Option.some.injEq] at h; subst h; cases hv
+            · simp only [Option.some.injEq] at h; subst h; cases hv
+          · simp only [Option.some.injEq] at h; subst h; cases hv
+          · simp only [Option.some.injEq] at h; subst h; cases hv
+      | failed => exact Or.inr ⟨rfl, hvfail hv⟩
+      | gap why => exact absurd hv (hng why)
+  · intro hs
+    cases hv : r.vstatus with
+    | none => rfl
+    | some st => exact absurd (hiff.1 (by rw [hv]; rfl)) hs
+
+/-! ### non-vacuity of `vcheck_not_stuck` / `check_entry_faithful_nogap` -/
+
+private def bbX1 : Ast := .node .BOOLEAN .none 0 0 [.node .BOOLEAN .none 0 0 [.node .ID_GLOBAL (.text "X1") 0 0 []]]
+/-- the stored definition `F1 :== [a∈ℬℬ(X1)] a∪a` -/
+private def defF1 : Ast :=
+  .node .PUNC_DEFINE .none 0 0 [.node .ID_FUNCTION (.text "F1") 0 0 [],
+    .node .NT_FUNC_DEFINITION .none 0 0 [
+      .node .NT_ARGUMENTS .none 0 0 [.node .NT_ARG_DECL .none 0 0 [.node .ID_LOCAL (.text "a") 0 0 [], bbX1]],
+      .node .UNION .none 0 0 [.node .ID_LOCAL (.text "a") 0 0 [], .node .ID_LOCAL (.text "a") 0 0 []]]]
+/-- a context with the base set `X1` and the term function `F1` (typed, with value class and stored definition) -/
+private def ctxCall : Ctx :=
+  { types := [("X1", .ty (.coll (.base "X1"))), ("F1", .ty (.coll (.coll (.base "X1"))))],
+    funcs := [("F1", [("a", .coll (.coll (.base "X1")))])],
+    traits := [("X1", Traits.nominal)],
+    vclass := [("X1", .value), ("F1", .value)],
+    asts := [("F1", defF1)] }
+
+private theorem ctxCall_lookup {f : String} {tree : Ast} (h : lookup ctxCall.asts f = some tree) : tree = defF1 := by
+  simp only [ctxCall, lookup] at h
+  split at h
+  · exact (Option.some.inj h).symm
+  · cases h
+
+private theorem ctxCall_shape : AstsShape ctxCall := by
+  intro f tree h
+  cases ctxCall_lookup h
+  refine ⟨_, _, _, rfl, rfl, rfl, ?_, Or.inl (.sSetbin (Or.inl rfl) .sLocal .sLocal)⟩
+  intro d hd
+  simp only [Ast.kids, List.mem_cons, List.not_mem_nil, or_false] at hd
+  subst hd
+  exact ⟨_, _, _, _, _, rfl⟩
+
+private theorem ctxCall_arity : AstsArity ctxCall := by
+  intro f tree fd body h h1 hb
+  cases ctxCall_lookup h
+  cases h1
+  cases hb
+  decide +kernel
+
+private theorem ctxCall_acyclic : AstsAcyclic ctxCall (fun _ => 0) := by
+  intro f tree fd body h h1 hb
+  cases ctxCall_lookup h
+  cases h1
+  cases hb
+  show CallsBelow ctxCall (fun _ => 0) 0 _
+  decide +kernel
+
+/-- all hypotheses of `check_entry_faithful_nogap` hold for the ASCII text `F1[B(X1)]` in that context: the argument `ℬ(X1)`
+is a property, so `ViFunctionCall` audits the STORED body of `F1` (the path with the unchecked accesses and the assert);
+`CheckType` true, `CheckValue` true with class `props`, log empty, the parsed tree satisfies the arity condition -/
+example : AstsShape ctxCall ∧ AstsArity ctxCall ∧ AstsAcyclic ctxCall (fun _ => 0) ∧
+    (∀ ts, lex .ascii (units "F1[B(X1)]") = some ts → CCVerif.ParserShape.FuncsNotLogic ctxCall ts) ∧
+    (checkEntry ctxCall (some .ascii) (units "F1[B(X1)]")).map (fun r => (r.status, r.errors, r.vstatus, r.verrors)) =
+      some (.ok, [], some .ok, []) ∧
+    (checkEntry ctxCall (some .ascii) (units "F1[B(X1)]")).map (fun r => (r.vclass,
+      r.parse.tree.map (fun t => decide (ArityOK ctxCall t)))) = some (some .props, some true) :=
+  ⟨ctxCall_shape, ctxCall_arity, ctxCall_acyclic, CCVerif.ParserShape.funcsNotLogic_of_check (by decide +kernel),
+    by decide +kernel, by decide +kernel⟩
+
+/-- `vcheck_not_stuck` instantiated on the tree of that text -/
+example : ∀ t, parse .ascii (units "F1[B(X1)]") = some t → ArityOK ctxCall t → (vcheck ctxCall (vfuel ctxCall t) t).stuck = none := by
+  intro t hp ht
+  obtain ⟨xs, hw⟩ := CCVerif.ParserShape.parse_wfParsed .ascii _ t hp
+    (CCVerif.ParserShape.funcsNotLogic_of_check (Γ := ctxCall) (by decide +kernel))
+  exact vcheck_not_stuck ctxCall (fun _ => 0) xs t ctxCall_shape ctxCall_arity ctxCall_acyclic hw ht
 
 end CCVerif.C04
